@@ -153,12 +153,12 @@ def check_one(version, hist, line) -> list:
         if n_ == "0":
             follow += ["0;255;3;0;2;2.2", "0;255;3;0;2;2.1.1"]  # the gateway then reports its version
         if fl[2] == "0":
+            # ... and the node goes to sleep, the application parks a command for it, and it wakes by either announcement
+            follow += [f"{n_};255;3;0;32;500", f"{n_};255;3;0;22;1500", ("send", (int(n_), 3, 1, 0, 2, "parked")), f"{n_};255;3;0;22;1600", f"{n_};255;3;0;32;600", f"{n_};255;3;0;22;1700"]
+        if fl[2] == "0":
             # a presentation (whatever it carried as type, version string or description): then every
             # internal message type from that node with an ordinary payload
             follow += [f"{n_};255;3;0;{t};{p}" for t in range(0, 34) if t not in (0, 11) for p in (("1500",) if t != 2 else ("2.1",))]
-        if fl[2] == "0":
-            # ... and the node goes to sleep, the application parks a command for it, and it wakes by either announcement
-            follow += [f"{n_};255;3;0;32;500", f"{n_};255;3;0;22;1500", ("send", (int(n_), 3, 1, 0, 2, "parked")), f"{n_};255;3;0;22;1600", f"{n_};255;3;0;32;600", f"{n_};255;3;0;22;1700"]
         for fline in follow:
             if isinstance(fline, tuple):
                 so = s.send(Message(*fline[1]))
